@@ -14,13 +14,15 @@ CONSTANTS Sessions,      \* e.g. {1, 2}
           Keys,          \* e.g. {1} or {1, 2}
           MaxVals,       \* bound on fresh values handed out by Modify
           MaxOps,        \* operations per session
+          Skew,          \* initial version of row 1 is 1 + Skew (rows of one flush then carry DIFFERENT versions)
           MaxDepth
 VARIABLES st, last
 vars == <<st, last>>
 Gone == [ver |-> 0, val |-> 0]
 ObjNone == [s |-> "none", ver |-> 0, val |-> 0, pend |-> "none", nv |-> 0]
-InitSt == [db |-> [k \in Keys |-> [ver |-> 1, val |-> 0]],      \* committed rows (ver = 0: row absent)
-           work |-> [k \in Keys |-> [ver |-> 1, val |-> 0]],    \* image seen by the lock holder (uncommitted flushed work)
+InitVer(k) == IF k = 1 THEN 1 + Skew ELSE 1
+InitSt == [db |-> [k \in Keys |-> [ver |-> InitVer(k), val |-> 0]],      \* committed rows (ver = 0: row absent)
+           work |-> [k \in Keys |-> [ver |-> InitVer(k), val |-> 0]],    \* image seen by the lock holder (uncommitted flushed work)
            lock |-> 0,
            ses |-> [s \in Sessions |-> [k \in Keys |-> ObjNone]],
            needrb |-> [s \in Sessions |-> FALSE],      \* a flush failed inside the session's transaction: rollback() required
@@ -115,7 +117,7 @@ StaleFailsAndChangesNothing ==
             => (last'.ret = "StaleDataError" /\ st'.db = st.db /\ st'.work = st.db /\ st'.lock # x) ]_vars
 \* every successful update increments the version (committed versions only ever grow by the number of writes)
 VersionIncrements == [][ \A k \in Keys : (st'.db[k] # st.db[k] /\ st'.db[k].ver # 0) => st'.db[k].ver > st.db[k].ver ]_vars
-VersionMatchesHistory == \A k \in Keys : st.db[k].ver # 0 => st.db[k].ver = 1 + Len(st.hist[k])
+VersionMatchesHistory == \A k \in Keys : st.db[k].ver # 0 => st.db[k].ver = InitVer(k) + Len(st.hist[k])
 \* a deleted row never comes back and a session's object is never ahead of the database it can see
 NoResurrection == [][ \A k \in Keys : st.db[k].ver = 0 => st'.db[k].ver = 0 ]_vars
 LockHolderHasWork == st.lock = 0 => st.work = st.db
